@@ -619,6 +619,18 @@ pub fn run(scn: &Scn, ctx: &Ctx, scratch: &Path) {
             if got_cenc.map(|s| s.to_string()) != want.encoding {
                 bad("encoding", "-", format!("{:?}", m.cenc), format!("{:?}", want.encoding));
             }
+            // the FEC OTI of the object (its own override, else the session's)
+            if let Some(got) = &m.oti {
+                let w = o.eff_oti(&scn.sender.spec.oti);
+                // (Raptor / RaptorQ signal Z, not B: the block length the receiver reports is derived; the number of
+                // parity symbols is not always signalled)
+                let derived = matches!(w.scheme, Scheme::Raptor | Scheme::RaptorQ);
+                let got_t = (got.fec_encoding_id as u8, got.encoding_symbol_length as u32, if derived { 0 } else { got.maximum_source_block_length });
+                let want_t = (w.scheme.fec_id(), w.e as u32, if derived { 0 } else { w.b });
+                if got_t != want_t {
+                    bad("fec-oti", "-", format!("(id, E, B) = {:?}", got_t), format!("{:?}", want_t));
+                }
+            }
             use flute::receiver::writer::ObjectCacheControl as CC;
             let cache_ok = match (&o.cache, &m.cache_control) {
                 (None, CC::ExpiresAtHint(_)) | (None, CC::NoCache) => true,
